@@ -436,8 +436,11 @@ def proc_macro_case(rnd):
     if rest[:1] in ("(", "["):
         lead = lead or " "  # 'cmd!(' / 'cmd![' would be another construct
     trail = rnd.choice(["", "", " ", "  "])
+    if rest == "" and rnd.random() < 0.5:
+        lead = trail = ""  # a bare 'cmd!' with nothing at all after the bang
     text = o + "".join(p + " " for p in pre) + cmd + "!" + lead + rest + trail + c
-    return {"text": text, "fn": fn, "pre": pre, "cmd": cmd, "rest": rest}
+    follow = rnd.choice(["", "", "after = [n for n in m if n]\n", "x = 1\ny = f(a, b)\n", "if t:\n    u = 2\n"])
+    return {"text": text, "fn": fn, "pre": pre, "cmd": cmd, "rest": rest, "follow": follow}
 
 
 BLOCK_LINES = ["a b c", "x = 1", "if y:", "echo $HOME > out.txt", "for i in (1,\n  2):", "s = '''t\nu'''", "# comment", "", "ls -la | grep 'x y'", "def f(a, b=[1, 2]): pass", "print(\"it's\")", "with q as t:", "else:", "{'k': v}", "]unbalanced[" if False else "z = (1, 2)"]
